@@ -75,11 +75,8 @@ def r16_ab(prog: Program, chk: Check) -> None:
 
 
 def r16_c(prog: Program, chk: Check) -> None:
-    chk.rule("R16.c", "one change per pass and bounded repetition", floor=3)
+    chk.rule("R16.c", "bounded repetition of the autofix loop (one change per pass is decided by the model rule R16.h)", floor=2)
     fn = prog.func("node_visitor", "BaseNodeVisitor._apply_changes_to_lines")
-    firsts = [n for n in walk_no_nested(fn) if isinstance(n, ast.Subscript) and norm(n.value) == "changes"]
-    loops_over_changes = [n for n in walk_no_nested(fn) if isinstance(n, ast.For) and norm(n.iter) == "changes"]
-    chk.ob("R16.c", "node_visitor::BaseNodeVisitor._apply_changes_to_lines::first-change-only", len(firsts) == 1 and norm(firsts[0].slice) == "0" and not loops_over_changes, prog.site("node_visitor", fn), "only changes[0] may be applied per pass: later changes were computed against the old line numbers")
     mn = prog.func("node_visitor", "BaseNodeVisitor.main")
     loop = None
     for n in walk_no_nested(mn):
@@ -127,7 +124,7 @@ def r16_d(prog: Program, chk: Check) -> None:
 
 
 def r16_e(prog: Program, chk: Check) -> None:
-    chk.rule("R16.e", "Replacement producers and consumers agree that linenos_to_delete is 1-based", floor=5)
+    chk.rule("R16.e", "Replacement producers agree that linenos_to_delete is 1-based (the consumers are modelled by R16.h / R16.i)", floor=4)
     # producers inside node_visitor
     fn = prog.func("node_visitor", "BaseNodeVisitor.show_errors_for_unused_ignores")
     reps = calls_in(fn, "Replacement")
@@ -149,11 +146,7 @@ def r16_e(prog: Program, chk: Check) -> None:
     lr = prog.func("analysis_lib", "get_line_range_for_node")
     t = norm(lr)
     chk.ob("R16.e", "analysis_lib::get_line_range_for_node::one-based", "node.lineno" in t and ("range(" in t or "list(" in t), prog.site("analysis_lib", lr), "line ranges must be built from node.lineno (1-based)")
-    # interactive consumer subtracts 1 exactly once
-    ra = prog.func("node_visitor", "BaseNodeVisitor._run_and_apply_changes")
-    need_locals(ra, "start_lineno", "end_lineno", "offset", "additions", "linenos")
-    t = norm(ra)
-    chk.ob("R16.e", "node_visitor::BaseNodeVisitor._run_and_apply_changes::patch-convention", "start_lineno - 1 + offset" in t and "end_lineno + offset" in t and "offset += len(additions or []) - len(linenos)" in t, prog.site("node_visitor", ra), "patches use a 0-based start, an exclusive 1-based end and carry the length change forward")
+    # (the interactive consumer's patch arithmetic is decided by the model rule R16.i, not by text)
 
 
 def _targets_of(stmt_var: str, test: ast.AST) -> bool:
@@ -294,10 +287,182 @@ def r16_g(prog: Program, chk: Check) -> None:
                    f"ignore comments apply to their own line and, alone on a line, to the next one; offset {off} is neither")
 
 
+# ------------------------------------------------------------------- R16.h/i
+def _splice_reference(lines: List[str], delete: Set[int], additions: Optional[List[str]]) -> List[str]:
+    """Replacement's documented meaning: the listed 1-based lines disappear, the
+    additions stand right after the last deleted line; additions None = no edit."""
+    if additions is None:
+        return list(lines)
+    last = max(delete)
+    out = [l for i, l in enumerate(lines, 1) if i <= last and i not in delete]
+    return out + list(additions) + lines[last:]
+
+
+def r16_hi(prog: Program, chk: Check) -> None:
+    import itertools
+
+    from ..minterp import AssertionFailed, Interp, ModelError, Obj, Opaque, Unsupported
+
+    chk.rule(
+        "R16.h",
+        "the edit script applied by --autofix, as a finite model: _apply_changes_to_lines is interpreted from its AST on every file of up to 6 lines, every non-empty set "
+        "of line numbers to delete and 0-2 (or no) lines to add; the result equals the documented splice (deleted lines gone, additions right after the last deleted line, "
+        "every other line kept in order) and only the first change of a pass is applied",
+        floor=3,
+    )
+    m = "node_visitor"
+    fn = prog.func(m, "BaseNodeVisitor._apply_changes_to_lines")
+    names = [a.arg for a in fn.args.args]
+    if len(names) != 3:
+        raise AnchorError("_apply_changes_to_lines: expected (cls, changes, input_lines)")
+    total = 0
+    bad: Dict[str, List[dict]] = {"splice": [], "first-change-only": [], "input-not-mutated": []}
+    counts = {"splice": 0, "first-change-only": 0, "input-not-mutated": 0}
+
+    def run(changes: List[Obj], lines: List[str]):
+        env = {names[0]: Opaque("cls"), names[1]: changes, names[2]: lines}
+        it = Interp(env, {}, ())
+        try:
+            return it.run(fn)
+        except Unsupported as u:
+            raise AnchorError(f"_apply_changes_to_lines cannot be modelled: {u}")
+        except AssertionFailed as af:
+            raise AnchorError(f"_apply_changes_to_lines: assertion reached: {af}")
+        except ModelError as me:
+            return ("<crash>", str(me))
+
+    adds: List[Optional[List[str]]] = [None, [], ["+x\n"], ["+x\n", "+y\n"]]
+    for n in range(1, 7):
+        lines = [f"L{i}\n" for i in range(1, n + 1)]
+        for r in range(1, n + 1):
+            for delete in itertools.combinations(range(1, n + 1), r):
+                for add in adds:
+                    for order in ("asc", "desc"):
+                        d = list(delete) if order == "asc" else list(reversed(delete))
+                        total += 1
+                        inp = list(lines)
+                        ch = Obj("Replacement", linenos_to_delete=d, lines_to_add=None if add is None else list(add), error_str=None)
+                        got = run([ch], inp)
+                        want = _splice_reference(lines, set(delete), add)
+                        counts["splice"] += 1
+                        if got != want:
+                            bad["splice"].append({"file_lines": n, "delete": d, "add": add, "got": got, "want": want})
+                        counts["input-not-mutated"] += 1
+                        if inp != lines:
+                            bad["input-not-mutated"].append({"file_lines": n, "delete": d, "add": add})
+    # only the first change is applied (the others were computed against the unedited file)
+    lines = [f"L{i}\n" for i in range(1, 6)]
+    for d1, d2 in itertools.permutations(range(1, 6), 2):
+        total += 1
+        c1 = Obj("Replacement", linenos_to_delete=[d1], lines_to_add=["+a\n"], error_str=None)
+        c2 = Obj("Replacement", linenos_to_delete=[d2], lines_to_add=[], error_str=None)
+        got = run([c1, c2], list(lines))
+        counts["first-change-only"] += 1
+        if got != _splice_reference(lines, {d1}, ["+a\n"]):
+            bad["first-change-only"].append({"changes": [[d1], [d2]], "got": got})
+    total += 1
+    if run([], list(lines)) != lines:
+        bad["first-change-only"].append({"changes": [], "got": "file changed without a change"})
+    chk.model_evaluations += total
+    chk.analysed["edit_script_model"] = {"cases": total}
+    site = prog.site(m, fn)
+    for k in ("splice", "first-change-only", "input-not-mutated"):
+        b = bad[k]
+        chk.ob("R16.h", f"{m}::BaseNodeVisitor._apply_changes_to_lines::model::{k}", not b, site,
+               f"{counts[k]} cases, {len(b)} failing" + (f"; first: {b[0]}" if b else ""), witness=b[:4])
+
+
+def r16_i(prog: Program, chk: Check) -> None:
+    import itertools
+
+    from ..minterp import AssertionFailed, Interp, ModelError, Obj, Opaque, Unsupported
+
+    chk.rule(
+        "R16.i",
+        "the interactive fixer's patches, as a finite model: the loop of _run_and_apply_changes that turns the Replacements of a file into codemod patches is interpreted "
+        "from its AST for every sequence of up to 3 non-overlapping contiguous changes (with and without replacement lines) on a 7-line file; applying the patches in "
+        "order (codemod: lines[start:end] = new_lines, nothing when new_lines is None) gives the same file as applying each documented splice independently",
+        floor=1,
+    )
+    m = "node_visitor"
+    fn = prog.func(m, "BaseNodeVisitor._run_and_apply_changes")
+    loop = None
+    init = None
+    for n in ast.walk(fn):
+        if isinstance(n, ast.For) and norm(n.iter) == "changes" and any(isinstance(c, ast.Call) and last_attr(c) == "_PatchWithDescription" for c in ast.walk(n)):
+            loop = n
+    if loop is None:
+        raise AnchorError("_run_and_apply_changes: loop building _PatchWithDescription objects not found")
+    blk = parent(loop)
+    for fld in ("body", "orelse"):
+        stmts = getattr(blk, fld, [])
+        if any(x is loop for x in stmts):
+            idx = [x is loop for x in stmts].index(True)
+            init = stmts[:idx]
+    if init is None:
+        raise AnchorError("_run_and_apply_changes: statements before the patch loop not found")
+
+    def mk_patch(args, kwargs):
+        names = ["start", "end"]
+        d = dict(zip(names, args))
+        d.update(kwargs)
+        return Obj("Patch", start=d.get("start"), end=d.get("end"), new_lines=d.get("new_lines"))
+
+    mk_patch.wants_kwargs = True  # type: ignore[attr-defined]
+
+    n_lines = 7
+    lines = [f"L{i}\n" for i in range(1, n_lines + 1)]
+    # candidate changes: contiguous ranges [a, b], additions None / [] / one / two lines
+    ranges = [(a, b) for a in range(1, n_lines + 1) for b in range(a, min(a + 2, n_lines) + 1)]
+    adds: List[Optional[List[str]]] = [None, [], ["+x\n"], ["+x\n", "+y\n"]]
+    total = 0
+    bad: List[dict] = []
+    crashes: List[dict] = []
+    for k in (1, 2, 3):
+        for rs in itertools.combinations(ranges, k):
+            if any(rs[i][1] >= rs[i + 1][0] for i in range(len(rs) - 1)):
+                continue  # overlapping or unordered
+            for ads in itertools.product(range(len(adds)), repeat=k):
+                if k == 3 and len(set(ads)) == 3 and 0 not in ads:
+                    pass
+                total += 1
+                chs = [Obj("Replacement", linenos_to_delete=list(range(a, b + 1)), lines_to_add=None if adds[x] is None else list(adds[x]), error_str=Opaque("msg")) for (a, b), x in zip(rs, ads)]  # type: ignore[arg-type]
+                env = {"changes": {"f.py": chs}}
+                it = Interp(env, {}, (), {"_PatchWithDescription": mk_patch})
+                try:
+                    it.block(init)
+                    it.stmt(loop)
+                except Unsupported as u:
+                    raise AnchorError(f"patch loop cannot be modelled: {u}")
+                except (ModelError, AssertionFailed) as me:
+                    crashes.append({"changes": [(r, adds[x]) for r, x in zip(rs, ads)], "error": str(me)})
+                    continue
+                patches = it.env.get("patches")
+                if not isinstance(patches, list):
+                    raise AnchorError("patch loop: `patches` list not found after interpretation")
+                got = list(lines)
+                for p_ in patches:
+                    nl = p_.get("new_lines", loop)
+                    if nl is not None:
+                        got[p_.get("start", loop) : p_.get("end", loop)] = list(nl)
+                want = list(lines)
+                for (a, b), x in sorted(zip(rs, ads), reverse=True):
+                    want = _splice_reference(want, set(range(a, b + 1)), adds[x])
+                if got != want:
+                    bad.append({"changes": [{"delete": list(range(a, b + 1)), "add": adds[x]} for (a, b), x in zip(rs, ads)], "patches": [(p_.get("start", loop), p_.get("end", loop), p_.get("new_lines", loop)) for p_ in patches], "got": got, "want": want})
+    chk.model_evaluations += total
+    chk.analysed["patch_model"] = {"change_sequences": total}
+    site = prog.site(m, loop)
+    bad.sort(key=lambda d: len(repr(d["changes"])))
+    chk.ob("R16.i", f"{m}::BaseNodeVisitor._run_and_apply_changes::model::patches-equal-splices", not bad and not crashes, site,
+           f"{total} change sequences, {len(bad)} give a different file, {len(crashes)} crash" + (f"; smallest: {bad[0]['changes']} -> patches {bad[0]['patches']}" if bad else ""), witness=(bad[:4] or crashes[:4]))
+
+
 def run(prog: Program, chk: Check) -> None:
-    r16_ab(prog, chk)
     r16_c(prog, chk)
     r16_d(prog, chk)
     r16_e(prog, chk)
     r16_f(prog, chk)
     r16_g(prog, chk)
+    r16_hi(prog, chk)
+    r16_i(prog, chk)
